@@ -93,12 +93,12 @@ var properties = map[string]Property{
 	},
 	"C09": {
 		Level:       "other",
-		Rules:       []string{"V-OPS", "V-WIRE", "V-PREC", "V-SINGLE-RIGHT", "V-LITERAL", "V-VALIDATED", "V-INPUT-PURE", "V-BOOL", "L-CLASS", "V-SELECT", "V-TWO-CURRENT", "N-GETSET", "G-IMPORTS", "N-PRESENCE"},
+		Rules:       []string{"V-OPS", "V-WIRE", "V-PREC", "V-SINGLE-RIGHT", "V-LITERAL", "V-VALIDATED", "V-INPUT-PURE", "V-BOOL", "L-CLASS", "V-SELECT", "V-TWO-CURRENT", "N-GETSET", "G-IMPORTS", "N-PRESENCE", "N-HEADORDER"},
 		Explanation: "Decided (structural part): each ordering builder realises one operator on every path — straight operands with its own comparator, exchanged operands with the mirror comparator — and the four operators are each realised by exactly one builder; every comparator's loop keeps exactly the elements for which `element OP right` holds and blanks the others; `!=` is NOT(==) over the same operands in order; no comparison is built with a per-member operand on the right of a member-independent one (evaluation reads only right[0]). Also decided (per-node half of the Boolean-algebra clause): a symbolic execution of the AND / OR / NOT nodes compares, for every path and every path through the merge loop, the truth value of the returned list at a member with the truth table of the operator the grammar wires the node to, with the length-1 whole-match convention as path facts (V-BOOL); no query returns or writes the member list it was given, so the operands of one operator see the same members (V-INPUT-PURE); a comparison of two per-member operands cannot be built (V-TWO-CURRENT). Not decided: the composition over whole filter expressions as a relation between query results. Also decided: each comparison / logical token of the grammar the generated parser runs runs the builder of its own operator with (left, right) in source order, and `||` binds looser than `&&`, looser than comparison / parentheses / `!`.",
 	},
 	"C10": {
 		Level:       "other",
-		Rules:       []string{"V-ACCEPT", "V-LITERAL", "V-VALIDATED", "V-SINGLE-RIGHT", "G-IMPORTS", "N-PRESENCE"},
+		Rules:       []string{"V-ACCEPT", "V-LITERAL", "V-VALIDATED", "V-SINGLE-RIGHT", "G-IMPORTS", "N-PRESENCE", "N-HEADORDER"},
 		Explanation: "Decided (structural part): every validator keeps exactly one JSON type on all paths (numeric: float64, with json.Number converted on every path), blanks everything else with the absence marker, reports 'found' exactly for kept elements and visits every element; each literal kind (float64, bool, string, nil) selects the direct-equality comparator with the validator keeping that kind, non-literals use reflect.DeepEqual with the permissive validator; ordering and regex comparators assert exactly the type their embedded validator keeps, after skipping the marker; the comparator call is dominated by successful validation of both operand lists. Not decided: which operand ends up on the right when both are non-member operands (the live `$.a == 1` vs `1 == $.a` json.Number discrepancy) and DeepEqual's numeric semantics across decodings.",
 	},
 	"C11": {
@@ -119,7 +119,7 @@ var properties = map[string]Property{
 	},
 	"C14": {
 		Level:       "other",
-		Rules:       []string{"N-FUNCALL", "N-FORWARD", "P-RTERR", "O-POOL", "B-CHAIN", "P-RESTRICT", "N-WALK", "N-GETSET", "N-HEAD", "N-VGSUM", "V-PARAM-ALWAYS", "N-APPLY", "G-IMPORTS", "N-VGFLAG", "N-CTOR", "N-ERRWIRE"},
+		Rules:       []string{"N-FUNCALL", "N-FORWARD", "P-RTERR", "O-POOL", "B-CHAIN", "P-RESTRICT", "N-WALK", "N-GETSET", "N-HEAD", "N-VGSUM", "V-PARAM-ALWAYS", "N-APPLY", "G-IMPORTS", "N-VGFLAG", "N-CTOR", "N-ERRWIRE", "N-HEADORDER"},
 		Explanation: "Decided (structural part): a function node calls its user function at exactly one site, outside loops; the filter function receives the node's current value; the aggregate receives the list of its private pooled sink, or element 0 as an array only under the parameter's value-group test being false and a successful checked assertion; the function's result is what is forwarded; ErrorFunctionFailed is built only when that call returned an error; the chain builder keeps its link target on the step just processed (so a step after an aggregate is linked behind the aggregate). Not decided: that the value-group flag is correct for the chain (the live `$.a.*.f()` defect), . Also decided: function names are looked up in the filter table first, then the aggregate table, else ErrorFunctionNotFound.",
 	},
 	"C15": {
